@@ -57,7 +57,7 @@ type c02Faulty struct {
 	log     []c02Read
 	overrun int
 	other   [][]byte
-	blobCT  map[int][][]byte // authentic blob ciphertexts by length (for misdirected reads)
+	blobCT  map[int][]c02CT // authentic blob ciphertexts by length (for misdirected reads)
 }
 
 func (f *c02Faulty) Unwrap() backend.Backend { return f.Backend }
@@ -73,6 +73,11 @@ func (f *c02Faulty) disarm() (log []c02Read, used, overrun int) {
 	defer f.mu.Unlock()
 	f.armed = false
 	return f.log, f.pos, f.overrun
+}
+
+type c02CT struct {
+	id restic.ID
+	ct []byte
 }
 
 type c02ErrReader struct{}
@@ -135,9 +140,16 @@ func (f *c02Faulty) Load(ctx context.Context, h backend.Handle, length int, offs
 			}
 		}
 	case "swap": // a misdirected read: the AUTHENTIC ciphertext of another blob of the same length
+		var tid restic.ID // which blob was asked for (found by its authentic bytes)
 		for _, o := range f.blobCT[length] {
-			if !bytes.Equal(o, truth) {
-				d = append([]byte(nil), o...)
+			if bytes.Equal(o.ct, truth) {
+				tid = o.id
+			}
+		}
+		for i := range f.blobCT[length] {
+			o := f.blobCT[length][(i+k.a)%len(f.blobCT[length])]
+			if o.id != tid { // a DIFFERENT blob: authentic bytes, wrong content
+				d = append([]byte(nil), o.ct...)
 				rec.kind = "swap-hit"
 				break
 			}
@@ -244,16 +256,20 @@ func (h *H) c02NewRepo(version uint) *c02Repo {
 	r := &c02Repo{repo: repo, inner: inner, faulty: f, version: version}
 	r.zdec, _ = zstd.NewReader(nil)
 	ctx := context.Background()
-	nb := 3 + h.Intn(5)
+	nb := 7 + h.Intn(5)
 	for i := 0; i < nb; i++ {
 		var d []byte
-		switch h.Intn(5) {
-		case 0:
+		switch {
+		case i < 2: // pairs of blobs of equal length (plain and compressible), so that a misdirected
+			d = h.Bytes(64) // read can return AUTHENTIC bytes of a different blob of the same size
+		case i < 4:
+			d = h.Bytes(300)
+		case i < 6:
+			d = h.c02Compressible(500)
+		case h.Intn(4) == 0:
 			d = h.c02Compressible(20 + h.Intn(3000))
-		case 1:
+		case h.Intn(3) == 0:
 			d = h.Bytes(1 + h.Intn(40))
-		case 2, 3: // several blobs of equal length, so that a misdirected read can return authentic foreign data
-			d = h.Bytes([]int{64, 300}[h.Intn(2)])
 		default:
 			d = h.Bytes(17 + h.Intn(1500))
 		}
@@ -311,11 +327,11 @@ func (h *H) c02NewRepo(version uint) *c02Repo {
 	for _, n := range r.names {
 		f.other = append(f.other, r.state[n])
 	}
-	f.blobCT = map[int][][]byte{}
+	f.blobCT = map[int][]c02CT{}
 	for _, b := range r.blobs {
 		for _, c := range repository.VerifC02Lookup(repo, restic.BlobHandle{ID: b.id, Type: b.tpe}) {
 			pb := r.state["data/"+c.PackID().String()]
-			f.blobCT[int(c.Blob.Length)] = append(f.blobCT[int(c.Blob.Length)], pb[c.Blob.Offset:c.Blob.Offset+c.Blob.Length])
+			f.blobCT[int(c.Blob.Length)] = append(f.blobCT[int(c.Blob.Length)], c02CT{b.id, pb[c.Blob.Offset : c.Blob.Offset+c.Blob.Length]})
 		}
 	}
 	return r
